@@ -16,6 +16,9 @@ ROLE_TYPES = {
 }
 
 
+ROLE_TRAITS = {"Method": "context::Method"}
+
+
 def canonicalise(doc):
     """Rewrites the def-paths of role types that live in another module than the rules' vocabulary names them in.
     Returns (doc, {actual path: canonical path}); the doc is returned unchanged when nothing moved."""
@@ -26,6 +29,14 @@ def canonicalise(doc):
         if canon in paths:
             continue
         found = [p for p in paths if p.rsplit("::", 1)[-1] == name]
+        if len(found) == 1:
+            mapping[found[0]] = canon
+    # the method trait is found by name among the crate's own traits, like the role types
+    traits = sorted({(f.get("impl") or {}).get("trait") for f in doc["fns"].values() if (f.get("impl") or {}).get("trait")} - {None})
+    for name, canon in ROLE_TRAITS.items():
+        if canon in traits:
+            continue
+        found = [t for t in traits if t.rsplit("::", 1)[-1] == name and not t.startswith(("std::", "core::", "alloc::"))]
         if len(found) == 1:
             mapping[found[0]] = canon
     # inherent methods written in an `impl Type` block of another module print as `module::<impl Type>::name`; the method is `Type::name`
@@ -57,41 +68,59 @@ def staged_doc(prog, max_blocks=60):
     from .inline import inline_mir
     from .sroa import scalarise
     prog.callgraph()
-    stages = {}
+    stages = {}           # stage → sorted list of its callers
+    has_closures = {f.get("parent") for f in prog.fns.values() if f.get("kind") == "Closure"} | {f.get("root") for f in prog.fns.values() if f.get("kind") == "Closure"}
     for k, f in prog.fns.items():
         imp = f.get("impl") or {}
         if f.get("kind") == "Closure" or f.get("no_mangle") or imp.get("trait") or len(f["mir"]["blocks"]) > max_blocks:
             continue
-        cs = prog.call_sites.get(k, [])
-        if len(cs) != 1:
+        if f.get("vis") == "pub":
             continue
-        caller = cs[0][0]
-        cf = prog.fns.get(caller) or {}
-        if caller == k or cf.get("kind") == "Closure":
+        cs = prog.call_sites.get(k, [])
+        callers = sorted({c[0] for c in cs})
+        if not cs or k in callers:
+            continue
+        if len(cs) > 1:
+            # a small helper shared by a few call sites (a constructor wrapper, a two-line formatter): a copy is spliced into each of them
+            # (free functions only: a method with several call sites is a unit of its type that rules may know by role)
+            if len(cs) > 4 or len(f["mir"]["blocks"]) > 25 or k in has_closures or imp.get("self"):
+                continue
+        if any((prog.fns.get(c) or {}).get("kind") == "Closure" for c in callers):
             continue
         if Body(f).loops():
             continue                    # a stage with a loop of its own is a unit the rules know by role (scan, join, look-up); only straight stages are spliced
-        cimp = cf.get("impl") or {}
-        same_home = (imp.get("self") and imp.get("self") == cimp.get("self")) or \
-                    (not imp.get("self") and not cimp.get("trait") and k.rsplit("::", 1)[0] == (cimp.get("self") or caller).rsplit("::", 1)[0])
-        if not same_home:
+        ok_home = True
+        for caller in callers:
+            cf = prog.fns.get(caller) or {}
+            cimp = cf.get("impl") or {}
+            same_home = (imp.get("self") and imp.get("self") == cimp.get("self")) or \
+                        (not imp.get("self") and not cimp.get("trait") and k.rsplit("::", 1)[0] == (cimp.get("self") or caller).rsplit("::", 1)[0]) or \
+                        (not imp.get("self") and k.rsplit("::", 1)[0] == (cimp.get("self") or caller).rsplit("::", 1)[0])
+            if not same_home:
+                ok_home = False
+        if not ok_home:
             continue
-        stages[k] = caller
+        stages[k] = callers
     if not stages:
         return None, {}
 
-    def host(k):
-        seen = set()
-        while k in stages and k not in seen:
-            seen.add(k)
-            k = stages[k]
-        return k
-    hosts = sorted({host(k) for k in stages})
+    def hosts_of(k, seen=frozenset()):
+        out = set()
+        for c in stages.get(k, []):
+            if c in stages and c not in seen:
+                out |= hosts_of(c, seen | {k})
+            elif c not in stages:
+                out.add(c)
+        return out
+    # a stage whose callers are all stages of a cycle has no host: leave such stages alone
+    for k in [k for k in stages if not hosts_of(k)]:
+        del stages[k]
+    if not stages:
+        return None, {}
+    hosts = sorted(set().union(*[hosts_of(k) for k in stages]))
     doc = dict(prog.doc)
     fns = dict(prog.fns)
     for h in hosts:
-        if h in stages:
-            continue
         m, prom, inl = inline_mir(prog, h, stop=lambda g: g not in stages, maxdepth=6, desugar=False)      # plain splicing: the hosts keep their own spelling
         try:
             scalarise(m, prog)
@@ -102,19 +131,19 @@ def staged_doc(prog, max_blocks=60):
         nf["promoted"] = prom
         nf["staged"] = sorted(set(inl))
         fns[h] = nf
-    gone = {k for k in stages if host(k) not in stages}
+    gone = set(stages)
     for k in gone:
         fns.pop(k, None)
     for k, f in list(fns.items()):
         if f.get("kind") == "Closure" and (f.get("parent") in gone or f.get("root") in gone):
             nf = dict(f)
             if nf.get("parent") in gone:
-                nf["parent"] = host(nf["parent"])
+                nf["parent"] = sorted(hosts_of(nf["parent"]))[0]
             if nf.get("root") in gone:
-                nf["root"] = host(nf["root"])
+                nf["root"] = sorted(hosts_of(nf["root"]))[0]
             fns[k] = nf
     doc["fns"] = fns
-    return doc, {k: host(k) for k in sorted(gone)}
+    return doc, {k: sorted(hosts_of(k))[0] for k in sorted(gone)}
 
 
 class AnchorError(Exception):
